@@ -295,6 +295,22 @@ def run(ctx, report):
                 report.stream("footer.rewrite")
             if problems and any("unreadable" in p for p in problems):
                 break
+        if s < 6 and os.path.exists(target):
+            # directed: an update that is refused (a value that is neither text nor bytes) is an update too: it touches nothing
+            before = open(target, "rb").read()
+            rec = {"check": "refused-update", "file": kind, "update": {"count": "3 (int)"}, "history_step": steps}
+            ctx.crumb(rec)
+            try:
+                writer.update_file_custom_metadata(target, {"count": 3})
+                refused = False
+            except Exception:  # noqa
+                refused = True
+            after = open(target, "rb").read()
+            if refused and after != before:
+                report.violation({**rec, "what": f"the update was refused but the file changed: {len(before)} bytes before, {len(after)} after"
+                                  + ("" if after[-4:] == b"PAR1" else "; it no longer ends with the PAR1 magic"), "sig": "refused-update-changed-file"})
+            report.case(("refused-upd", kind, refused), True)
+            report.count("refused-update:" + ("raised" if refused else "accepted"))
         shutil.rmtree(path, ignore_errors=True) if os.path.isdir(path) else os.remove(path)
     if reqs:
         reps = ctx.driver.ask([r[0] for r in reqs])
